@@ -69,7 +69,7 @@ def gen(tier, seed):
                 yield {'ell': ell, 'lat': lat, 'lon': lon, 'az': az, 'dist': ds, 'kind': 'float'}
     for ell in ('grs80', 'ans'):
         for lat, lon in ((-37.95103342, 144.42486789), (0.0, 144.42486789), (45.5, -0.45), (-0.3, 10.0),
-                         (-37.500000002, 144.00000000001)):
+                         (-37.500000002, 144.00000000001), (90.0, 10.0), (-90.0, -0.45), (89.1, 180.0), (-45.0, -180.0)):
             for kind in cfg.INTYPES[1:] + cfg.NUMFORMS:
                 yield {'ell': ell, 'lat': lat, 'lon': lon, 'az': [0.0, 0.15, 306.868159, 180.0], 'dist': [54972.271, 1e6],
                        'kind': kind}
@@ -175,9 +175,16 @@ def ev(case, rec):
                 st, r = rec.call(vincdir, cfg.unwrap(la), cfg.unwrap(lo), cfg.unwrap(az_o), s, ELLS[ell])
                 st2, r2 = rec.call(vincdir, la.dec(), lo.dec(), az_o.dec(), s, ELLS[ell])
                 rec.nontriv((ell, lat, lon, az, s, kind))
+                # ... and the object denotes the lattice value in its own notation (100 gon IS the pole): the result is the result
+                # for that value (which the float lattice judges against the exact geodesic)
+                st0, r0 = rec.call(vincdir, lat, lon, az, s, ELLS[ell])
                 if st != 'ok' or st2 != 'ok' or tuple(r) != tuple(r2):
                     rec.fail('angle-class arguments give a different result from their decimal-degree values',
                              site='geodesy:vincdir:intype', observed=r, expected=r2, case=one, coords=co)
+                elif st0 == 'ok' and kind != 'np32' and (abs(r[0] - r0[0]) > 1e-8 or cfg.angdiff(r[1], r0[1]) * max(math.cos(math.radians(r0[0])), 0.0) > 1e-8
+                                      or (abs(r0[0]) < 89.9999 and cfg.angdiff(r[2], r0[2]) > 1e-6)):
+                    rec.fail('an angle object that denotes the value %r in its own notation gives a different result from that value' % lat,
+                             site='geodesy:vincdir:intype-value', observed=list(r), expected=list(r0), case=one, coords=dict(co, kind=kind))
                 else:
                     rec.outcome('intype-ok')
     rec.sample({'case': dict(case, az=case['az'][:2], dist=case['dist'][:2])})
